@@ -4,7 +4,7 @@
 Per property: (1) rebuild from /repo's current tree: regenerate the leaf layer, re-check the Coq
 development, extract, build the drivers; (2) proof gate; (3) ties (leaf translation validation,
 Impl <-> C correspondence, ...); (4) property oracle on the implementation; (5) verdict + evidence."""
-import os, sys, json, random, time, re, glob
+import os, sys, hashlib, json, random, time, re, glob
 
 sys.path.insert(0, os.path.dirname(os.path.abspath(__file__)))
 sys.path.insert(0, os.path.join(os.path.dirname(os.path.dirname(os.path.abspath(__file__))), 'harness', 'gen'))
@@ -901,11 +901,40 @@ def check_C04(tier, seed, pid='C04'):
                     run.known.append('%s: %s' % (f['reproducer'], f['what']))
                 else:
                     viol(run, 'finding', 'the reproducer of a listed finding behaves differently now\n%s\nprotobuf-c: %s\nreference: %s\n' % (f['reproducer'], co, ro))
+    if pid == 'C04':
+        slab_limit_finding(run)
     finish_stats(run, st, ('random schemas x canonical messages re-encoded by the Python reference encoder: fields shuffled, varints / keys / lengths padded, '
                            'repeated scalars packed / unpacked / mixed, stale earlier values for singular scalars, unknown fields interleaved'
                            + (', embedded messages (without required fields) split over 2-3 occurrences' if split else '') +
                            '; UNPACK on protobuf-c, the extracted model and libprotobuf; results compared in the normal form of refnorm.py, and with the encoded value'))
     return conclude(run, gate, obl)
+
+
+def slab_limit_finding(run):
+    """replays the listed C04 finding on the real library (one 268 MB input, about 4.5 GB of slabs, 10 s); reported as
+    KNOWN-FINDING while protobuf-c still rejects that valid encoding, silently gone when it accepts it"""
+    for f in common.load_findings().get('findings', []):
+        if f.get('property') != 'C04' or not f.get('reproducer', '').endswith('slab_limit.c'):
+            continue
+        src = os.path.join(ROOT, f['reproducer'])
+        repo = common.REPO
+        h = hashlib.sha256(open(src, 'rb').read() + open(os.path.join(repo, 'protobuf-c', 'protobuf-c.c'), 'rb').read()
+                           + open(os.path.join(repo, 'protobuf-c', 'protobuf-c.h'), 'rb').read()).hexdigest()[:16]
+        exe = os.path.join(BUILD, 'c', 'slab_limit-' + h)
+        if not os.path.exists(exe):
+            rc, out, err = common.sh(['gcc', '-O2', '-I', repo, '-o', exe, src, os.path.join(repo, 'protobuf-c', 'protobuf-c.c')], timeout=300)
+            if rc != 0:
+                viol(run, 'finding', 'the reproducer of a listed finding does not build\n%s\n%s\n' % (f['reproducer'], (out + err)[-2000:]))
+                continue
+        rc, out, err = common.sh([exe] + f.get('args', []), timeout=600)
+        first = out.strip().splitlines()[0] if out.strip() else ''
+        run.cov['slab_limit_replay'] = {'exit': rc, 'output': first}
+        if rc == 0 and first.startswith('message'):
+            continue                                     # accepted now: the finding is gone
+        if (rc == 0 and first == f.get('expect', 'NULL')) or rc == 2:
+            run.known.append('%s: %s' % (os.path.basename(f['reproducer']), f['what']))
+        else:
+            viol(run, 'finding', 'the reproducer of a listed finding behaves differently now\n%s\nexit %d\n%s\n%s\n' % (f['reproducer'], rc, out[-500:], err[-500:]))
 
 
 def check_C10(tier, seed):
